@@ -4,6 +4,7 @@ PROP = dict(
     runs=[dict(cmd="c10", quick=24, thorough=1000)],
     trusted_base=[
         "hand-written Gallina model coq/Trie/Model.v of pkg/core/mpt (put, delete, put_batch, get, traverse/Seek/Find, GetProof, VerifyProof, node codec), tied to the Go code by differential evaluation only",
+        "the model is a VALUE: that results handed out by the trie (Get values, proof elements, Find/Seek keys and values) and argument buffers (keys, proof lists) do not alias its internal buffers is not a theorem but checked by the harness's scribble discipline (every such slice is overwritten after the call, the history continues)",
         "coq/Common/Sha256.v: executable SHA-256, not proved against FIPS 180-4, compared with crypto/sha256 on every run; no theorem depends on it (theorems are over an arbitrary H)",
     ],
     assumptions=[
